@@ -202,6 +202,7 @@ class RegionRun(object):
         self.aborting = False
         self.est_steps = max(1, est_steps)
         self.preempt_between_load_store = 0
+        self.partials = {}  # scalar reductions: (region, name) -> {"op":..., "parts": {worker: partial}}
         self.in_aug = [False] * self.W
         # PCT
         if sched.policy == "pct":
